@@ -3,6 +3,7 @@
    mode, every outbound index, every destination text/port and every sniffed byte string. *)
 From Coq Require Import List NArith ZArith Bool String.
 From Dae Require Import C18_GoStrings C18_ParseAddr C18_Spec C18_Model C18_Proofs.
+From Dae.gen Require Import C18_Consts.
 Import ListNotations.
 Open Scope N_scope.
 
